@@ -4,6 +4,7 @@ _FWD = "TestVerifC09Forward"
 _TRN = "TestVerifC09Transit"
 _VEC = "TestVerifC09RefVectors"
 _SW = "TestVerifC09Switch"
+_IN = "TestVerifC09LinkInputs"
 
 PROP = dict(
     level="exploration",
@@ -17,7 +18,14 @@ PROP = dict(
           "verdict, as measured by the exact reference margins (for the Switch "
           "test: at least one candidate link is within +-1 of a rule boundary or "
           "the candidate links disagree). Distinct = distinct generated input "
-          "tuples. TestVerifC09RefVectors / TestVerifC09Pinned add 24 hand-computed "
+          "tuples. TestVerifC09LinkInputs: a case is one generated forwarding package "
+          "(1-4 ADDs: forwardable / undecodable onion / exit hop; generated link "
+          "inbound fee) written to the real channel DB and run through the real "
+          "channelLink.processRemoteAdds twice - first-time pass and, after a "
+          "simulated restart with a generated FwdFilter/AckFilter state, the "
+          "reforward pass; non-trivial = the reforward pass handed over >= 1 packet "
+          "and (the link's inbound fee is non-zero or a reforwarded ADD sits behind "
+          "an acked one). TestVerifC09RefVectors / TestVerifC09Pinned add 24 hand-computed "
           "vectors for the reference itself and 7 pinned inputs (finding F8 "
           "reproductions) through the real link."),
     assumptions=[
@@ -26,6 +34,7 @@ PROP = dict(
         "the inbound fee rate clamp to +-10x and the separate truncation toward zero of the inbound component are taken from lnd's documentation of InboundFee.CalcFee as the specified rounding",
         "custom (aux-channel) HTLCs, for which lnd skips the min/max rule by design, are outside the property; an AuxTrafficShaper is used only as a source of arbitrary bandwidth values",
         "the spendable bandwidth itself (LightningChannel.AvailableBalance) is an input of this property, not checked by it",
+        "LinkInputs: onions are lnd's mock hop iterator encoding (the sphinx layer is not under test); a 'restart' is a reload of the forwarding package from the real channel DB plus a fresh onion decoder; crafted FwdFilter subsets are written through the real ChannelPackager; ADDs are not present in the channel's update log (fail-backs of undecodable/exit ADDs are therefore no-ops and not observed)",
     ],
     jobs=dict(
         quick=[
@@ -33,12 +42,14 @@ PROP = dict(
             job("htlcswitch", "^TestVerifC09Forward$", [_FWD], 50000, shards=8),
             job("htlcswitch", "^TestVerifC09Transit$", [_TRN], 25000, shards=4),
             job("htlcswitch", "^TestVerifC09Switch$", [_SW], 15000, shards=4),
+            job("htlcswitch", "^TestVerifC09LinkInputs$", [_IN], 10000, shards=4),
         ],
         thorough=[
             job("htlcswitch", "^TestVerifC09(RefVectors|Pinned)$", [_VEC, "TestVerifC09Pinned"], 1, shards=1),
             job("htlcswitch", "^TestVerifC09Forward$", [_FWD], 400000, shards=12, timeout=1500),
             job("htlcswitch", "^TestVerifC09Transit$", [_TRN], 200000, shards=4, timeout=1500),
             job("htlcswitch", "^TestVerifC09Switch$", [_SW], 100000, shards=4, timeout=1500),
+            job("htlcswitch", "^TestVerifC09LinkInputs$", [_IN], 60000, shards=8, timeout=1500),
         ],
     ),
 )
